@@ -177,6 +177,7 @@ ZERNIKE_REQUESTS = (
     [(0, 0), (1, 1), (1, -1), (2, 0), (2, 2), (2, -2), (3, 1), (3, -1)],     # the dense low-order set
     [(5, 5)],                                                                # one request, highest |m| only
     [(3, 3), (3, 1), (2, 0), (6, -4), (6, -4), (8, 2)],                      # unsorted, duplicated, skipped radial orders
+    [(6, 0), (2, 0), (4, 0), (5, 1), (3, -1), (1, 1)],                       # radial orders descending within one |m|
 )
 
 
@@ -221,7 +222,18 @@ def zernike_requests_rules(run, db, rule='C08.table2'):
                 ns = it.iterate(b.get('ns'), node)
                 if ns is None:
                     return Unknown('jacobi_seq over orders that are not followed')
-                return Tup([dom.func_atom('Jacobi', [n_, b.get('alpha'), b.get('beta'), b.get('x')]) for n_ in ns], 'list')
+                # jacobi_seq sweeps the orders upwards once and stores a row when the next requested order is reached: rows whose order
+                # is not above every order before it are never written (the pinned behaviour, C08.emit)
+                out, last = [], None
+                for k_, n_ in enumerate(ns):
+                    if not (isinstance(n_, Const) and isinstance(n_.v, int)):
+                        return Unknown('jacobi_seq over orders that are not concrete')
+                    if last is None or n_.v > last:
+                        out.append(dom.func_atom('Jacobi', [n_, b.get('alpha'), b.get('beta'), b.get('x')]))
+                        last = n_.v
+                    else:
+                        out.append(dom.sym('UNWRITTEN_row_of_jacobi_seq_given_orders_%s' % '_'.join(str(z.v) for z in ns)))
+                return Tup(out, 'list')
             if fi.name == 'jacobi' and fi.module.name.endswith('jacobi'):
                 b = bind_call(fi, args, kwargs)
                 return dom.func_atom('Jacobi', [b.get('n'), b.get('alpha'), b.get('beta'), b.get('x')])
